@@ -1,6 +1,6 @@
 (* C16 — property theorems (statements only; proofs live in Proofs*.v). *)
 From Coq Require Import ZArith QArith Qabs List Bool.
-Require Import QV.C16.Model QV.C16.Spec QV.C16.Proofs QV.C16.Proofs2 QV.C16.Proofs3 QV.C16.Proofs4 QV.C16.Proofs5 QV.C16.Proofs_term QV.C16.Proofs6 QV.C16.Proofs_fuel QV.C16.Proofs7 QV.C16.Proofs8 QV.C16.Proofs9 QV.C16.Gen_tabor QV.C16.GenEq QV.C16.Gen_loop QV.C16.GenEqLoop.
+Require Import QV.C16.Model QV.C16.Spec QV.C16.Proofs QV.C16.Proofs2 QV.C16.Proofs3 QV.C16.Proofs4 QV.C16.Proofs5 QV.C16.Proofs_term QV.C16.Proofs6 QV.C16.Proofs_fuel QV.C16.Proofs7 QV.C16.Proofs8 QV.C16.Proofs9 QV.C16.Gen_tabor QV.C16.GenEq QV.C16.Gen_loop QV.C16.GenEqLoop QV.C16.GenLibParse QV.C16.Gen_parse QV.C16.GenEqParse.
 Import ListNotations.
 Open Scope Z_scope.
 
@@ -361,3 +361,39 @@ Theorem C16_source_flatten_and_balance_tests : forall f d done todo,
     else fab f d (sub :: done) rest.
 Proof. exact gen_fab_eq. Qed.
 Print Assumptions C16_source_flatten_and_balance_tests.
+
+(* ---- round 4: the BOOKKEEPING of the two parsers, translated statement by statement from the current source
+   (translate/py2gallina_c16.py, FuncStateTranslator: the mutable locals advanced_sequencer_table, sequencer_tables,
+   waveforms, current_sequencer_table, volatile_parameter_positions become a record threaded through one Fixpoint per
+   for loop; OrderedDict = association list in insertion order; Gen_parse.v is regenerated on every check).  The
+   generated functions ARE the model's parsers on every input, after forgetting the jump flags (all 0), the grouping
+   of the volatile tags and volatile_parameter_positions (C15's subject, not carried by Model.parsed). *)
+Theorem C16_source_parse_aseq : forall tbl prog,
+  map_result conv_parsed (gen_parse_aseq_program tbl prog) = parse_aseq tbl prog.
+Proof. exact gen_parse_aseq_eq. Qed.
+Print Assumptions C16_source_parse_aseq.
+
+Theorem C16_source_parse_aseq_jump_flags : forall tbl prog g,
+  gen_parse_aseq_program tbl prog = Ok g ->
+  Forall (fun d => snd d = 0) (g_adv g) /\ Forall (Forall (fun e => snd (fst e) = 0)) (g_seqs g).
+Proof. exact gen_parse_aseq_jump0. Qed.
+Print Assumptions C16_source_parse_aseq_jump_flags.
+
+Theorem C16_source_parse_single : forall tbl prog,
+  depth prog = 1 ->
+  map_result conv_parsed (gen_parse_single_seq_program tbl prog) = parse_single tbl prog.
+Proof. exact gen_parse_single_eq. Qed.
+Print Assumptions C16_source_parse_single.
+
+Theorem C16_source_parse_single_asserts : forall tbl prog,
+  depth prog <> 1 -> gen_parse_single_seq_program tbl prog = Err EAssert.
+Proof. exact gen_parse_single_asserts. Qed.
+Print Assumptions C16_source_parse_single_asserts.
+
+(* Loop.split_one_child(): the model's choice of the child to split (`split_last`: the last child with a fixed count
+   > 1, else the last volatile one) is the reverse scan of the source — `for ... in enumerate(reversed(self))` with
+   `break` and `for-else` — taking its four tests from the generated file; `split_at` is the action. *)
+Theorem C16_source_split_one_child : forall l,
+  split_last l = option_map (fun i => split_at i l) (scan_gen (rev l) None).
+Proof. exact gen_split_last_eq. Qed.
+Print Assumptions C16_source_split_one_child.
